@@ -20,7 +20,15 @@ ACTIONS = ['CStart', 'CLess', 'CEqual', 'CGreater', 'IStart', 'ILess', 'IEqual',
 HDR = ['f', 'g']
 
 
+def _shift(prof):
+    # the generated rows use the abstract values 0 and 1 only; under the 'collide' profile they are moved to 1 and 2
+    # (-2 / -2.0 and -1 / -1.0), two distinct values with the SAME hash, so that different rows collide in every hash table
+    return 1 if prof.name == 'collide' else 0
+
+
 def _tab(rows, prof, occ=0, swap=False):
+    sh = _shift(prof)
+    rows = [[c + sh for c in r] for r in rows]
     if swap:
         return [['g', 'f']] + [list(reversed(prof.row(r, occ + i))) for i, r in enumerate(rows)]
     return [list(HDR)] + [prof.row(r, occ + i) for i, r in enumerate(rows)]
@@ -35,12 +43,16 @@ def run_case(case, swapped, pname, variant, occ=0):
     b_sw = _tab(case['b'], prof, occ + 5, swap=True)
     kw = dict(variant)
     problems = []
+    sh = _shift(prof)
 
     def absrows(t):
         rows = [tuple(r) for r in t]
         if rows[0] != tuple(HDR):
             raise AssertionError('header %r, spec %r' % (rows[0], tuple(HDR)))
-        return [list(prof.absrow(r)) for r in rows[1:]]
+        return [_unshift(prof.absrow(r)) for r in rows[1:]]
+
+    def _unshift(ar):
+        return [c - sh if isinstance(c, int) else c for c in ar]
 
     def expect(label, fn, want):
         try:
@@ -72,7 +84,7 @@ def run_case(case, swapped, pname, variant, occ=0):
     # THAT field order, so only header and multiset are compared with the (f, g)-ordered definition
     try:
         got = [tuple(r) for r in etl.recorddiff(a, b_sw, **kw)[0]]
-        gabs = sorted(tuple(reversed(prof.absrow(r))) for r in got[1:])
+        gabs = sorted(tuple(reversed(_unshift(prof.absrow(r)))) for r in got[1:])
         want = sorted(tuple(r) for r in swapped['comp'])
         if got[0] != ('g', 'f') or gabs != want:
             problems.append('recorddiff[0] delivered %r, spec (multiset, fields f,g) %r' % (got, want))
@@ -90,7 +102,7 @@ def run_case(case, swapped, pname, variant, occ=0):
             try:
                 got = [tuple(r) for r in fn()]
                 ok = got[0] == ('f', 'p', 'q', 'g') and all(r[1:3] == (u'P', u'Q') for r in got[1:]) and \
-                    [list(prof.absrow((r[0], r[3]))) for r in got[1:]] == want
+                    [_unshift(prof.absrow((r[0], r[3]))) for r in got[1:]] == want
             except Exception as e:
                 problems.append('%s over 4-field tables, b fields %r, raised %r' % (label, bh, e))
                 continue
